@@ -65,9 +65,10 @@ def atoms_for(names, c):
 
 # --------------------------------------------------------------------------- a case
 class Run:
-    def __init__(self, b, root, names, c, tag):
+    def __init__(self, b, root, names, c, tag, header=None):
         self.b, self.c = b, c
-        self.names = atoms_for(names, c)
+        self.header = header
+        self.names = atoms_for(names, c) if header is None else list(names)
         self.dir = os.path.join(root, tag)
         self.oc = os.path.join(self.dir, "l_igate.cxx")
         self.od = os.path.join(self.dir, "l.in")
@@ -75,9 +76,9 @@ class Run:
     def go(self):
         os.makedirs(self.dir, exist_ok=True)
         with open(os.path.join(self.dir, "h.h"), "w") as f:
-            f.write(L.header_text(self.names))
+            f.write(L.header_text(self.names) if self.header is None else self.header)
         with open(os.path.join(self.dir, "defs.cxx"), "w") as f:
-            f.write(L.defs_text(self.names))
+            f.write(L.defs_text(self.names) if self.header is None else '#include "h.h"\n')
         args = ["-oc", self.oc, "-od", self.od, "-module", "m", "-library", "l",
                 "-S" + os.path.join(self.b["repo"], "parser-inc"), "-D__cplusplus"] \
             + ["-" + x for x in self.c] + ["h.h"]
@@ -88,9 +89,9 @@ class Run:
         shutil.rmtree(self.dir, ignore_errors=True)
 
 
-def closure_case(b, root, names, c, tag, keep=False):
+def closure_case(b, root, names, c, tag, keep=False, header=None):
     """-> dict(status, problems, cov, counts)"""
-    run = Run(b, root, names, c, tag)
+    run = Run(b, root, names, c, tag, header=header)
     res = {"cfg": ckey(c), "atoms": run.names, "status": "ok", "problems": [], "cov": {},
            "records": 0}
     if not run.names:
@@ -157,6 +158,9 @@ def tables_case(run):
         if not m:
             return ["-fptrs given but the code has no _in_fptrs table"], 0
         ents = [e.strip().rstrip(",") for e in m.group(2).splitlines() if e.strip()]
+        named = [e for e in ents if not e.endswith(")0")]
+        if len(set(named)) != len(named):
+            probs.append("_in_fptrs points to the same function from two entries")
         if int(m.group(1)) != n or len(ents) != n:
             probs.append("_in_fptrs has %s/%d entries, the database %d wrappers" % (m.group(1), len(ents), n))
         for i, e in enumerate(ents):
@@ -175,8 +179,12 @@ def tables_case(run):
         if int(m.group(1)) != n or len(ents) != n:
             probs.append("_in_unique_names has %s/%d entries, the database %d wrappers" % (m.group(1), len(ents), n))
         seen = set()
+        useen = set()
         for u, k in ents:
             k = int(k)
+            if u and u in useen:
+                probs.append("_in_unique_names has the key %s twice" % u)
+            useen.add(u)
             w = db["wrappers"].get(k + 1)
             if w is None:
                 probs.append("_in_unique_names entry %s -> %d: no wrapper %d" % (u, k, k + 1))
@@ -549,11 +557,13 @@ def main():
             d = {"observed": sig, "kind": kind, "atoms": names, "cfg": list(c),
                  "same_observation_cases": sorted(m[0] for m in members)[:400]}
             d.update(det)
+            hdr = det.get("header")
             if kind == "closure":
-                conf = lambda names=names, c=c: closure_case(
-                    b, root, names, c, "confirm-%d" % (hash((tuple(names), c)) & 0xffffff))[0]["status"] == "closure"
+                conf = lambda names=names, c=c, hdr=hdr: closure_case(
+                    b, root, names, c, "confirm-%d" % (hash((tuple(names), c)) & 0xffffff),
+                    header=hdr)[0]["status"] == "closure"
             else:
-                conf = lambda names=names, c=c, kind=kind: _again(b, root, names, c, kind)
+                conf = lambda names=names, c=c, kind=kind, hdr=hdr: _again(b, root, names, c, kind, hdr)
             ck.fail(key, what, d, confirm=conf)
 
     # ---- family 1: every atom alone x every configuration (closure)
@@ -657,6 +667,78 @@ def main():
                     pending.append(("ffi", ff["sig"], key + "|ffi", names, c,
                                     {"bad": ff.get("bad"), "out": ff.get("out", ff.get("gxx", ""))}))
 
+    # ---- family 2b: constructed hash collisions (k = 2..5 signatures with one primary hash),
+    #      every declaration order; names, unique names, tables; agreement for the full groups
+    if want("collisions"):
+        hcfg = [c for c in cfgs if c[0] in ("c", "python") and (thorough or len(c) <= 3)]
+        groups = L.collision_groups()
+        jobs = [(g, k, order, c) for g in groups for k, order in L.group_orders(g) for c in hcfg]
+        full = {(g.name, order) for g in groups for k, order in L.group_orders(g)
+                if k == len(g.members) and order in (tuple(range(k)), tuple(reversed(range(k))),
+                                                     tuple((i + 1) % k for i in range(k)))}
+        agree_cfg = {("c", "fnames"), ("python", "fnames"), ("c", "fptrs", "unique-names"),
+                     ("python", "fptrs", "unique-names")}
+
+        def four(j):
+            g, k, order, c = j
+            tag = "%s-%s@%s" % (g.name, "".join(map(str, order)), ckey(c))
+            names = ["group:" + g.name] + [g.members[i][0] for i in order]
+            wantag = (g.name, order) in full and c in agree_cfg
+            res, run = closure_case(b, os.path.join(root, "g"), names, c, tag, keep=True,
+                                    header=g.header(order))
+            ag = None
+            if res["status"] == "ok" and ("fptrs" in c or "unique-names" in c):
+                tp, nchk = tables_case(run)
+                res["tables_checked"] = nchk
+                if tp:
+                    res["status"] = "tables"
+                    res["problems"] = tp
+            if res["status"] == "ok" and wantag:
+                ag = agreement_case(b, run, c[0])
+            if res["status"] == "ok":
+                plen = 4 + len(run.db["library_hash_name"])
+                nm = [w["name"] for w in run.db["wrappers"].values() if w["name"]]
+                res["same4"] = len(nm) - len(set(n[plen:plen + 4] for n in nm))
+            run.cleanup()
+            return j, res, ag, names, g.header(order)
+        for i in range(0, len(jobs), 512):
+            if ck.expired(reserve=120):
+                ck.cap("deadline: constructed collisions stopped after %d of %d cases" % (i, len(jobs)))
+                break
+            for (g, k, order, c), res, ag, names, hdr in pmap(four, jobs[i:i + 512]):
+                key = "group|%s|%s|%s" % (g.name, "".join(map(str, order)), ckey(c))
+                st = res["status"]
+                if st == "empty":
+                    continue
+                oc = {"ok": "closed", "closure": "not-closed", "rejected": "tool-rejects-options",
+                      "noexit0": "unjudged:exit!=0", "tables": "tables-disagree"}.get(st, st)
+                if ag:
+                    oc += "+agree:" + ag["status"]
+                ck.note(key, nontrivial=(st in ("ok", "closure", "tables") and res.get("same4", k) >= k - 1),
+                        outcome="group%d:%s:%s" % (k, oc, c[0]), family="constructed-collisions",
+                        sample={"group": g.name, "order": list(order), "options": ["-" + x for x in c],
+                                "wrappers": res.get("wrappers")})
+                account(res, c)
+                if res.get("tables_checked"):
+                    ck.extra["table_entries_checked"] = ck.extra.get("table_entries_checked", 0) + res["tables_checked"]
+                if st in ("closure", "unreadable"):
+                    sig = re.sub(r"_in[CP]\w+|\b[cp][A-Za-z0-9_]{8,}\b", "X", re.sub(r"\b\d+\b", "N", res["problems"][0]))
+                    pending.append(("closure", sig, key, names, c,
+                                    {"problems": res["problems"][:40], "cmd": res.get("cmd"),
+                                     "first": res["problems"][0], "header": hdr}))
+                if st == "tables":
+                    pending.append(("tables", re.sub(r"\b\d+\b", "N", re.sub(r"_in[CP]\w+|\b[cp][A-Za-z0-9_]{8,}\b", "X", res["problems"][0])),
+                                    key + "|tables", names, c,
+                                    {"problems": res["problems"][:20], "first": res["problems"][0], "header": hdr}))
+                if ag and ag["status"] not in ("ok", "nocompile"):
+                    pending.append(("agreement", ag["sig"], key + "|agreement", names, c,
+                                    {"gxx": ag.get("gxx", "")[:2500], "header": hdr}))
+                elif ag and ag["status"] == "nocompile":
+                    # the code of a colliding group must at least compile: C11 requires every
+                    # wrapper to be defined exactly once
+                    pending.append(("agreement", "generated code does not compile: " + ag["sig"],
+                                    key + "|agreement", names, c, {"header": hdr}))
+
     # ---- family 3 (thorough): ordered pairs of atoms, closure
     if thorough and want("pairs") and not ck.expired(reserve=300):
         pc = [c for c in cfgs if len(c) <= 2 or c in
@@ -711,16 +793,16 @@ def main():
                "load_not_identical_to_file": unequal_loads[:20]})
 
 
-def _again(b, root, names, c, what):
+def _again(b, root, names, c, what, header=None):
     res, run = closure_case(b, os.path.join(root, "again"), names, c,
-                            "%s-%d" % (what, hash((tuple(names), c)) & 0xffffff), keep=True)
+                            "%s-%d" % (what, hash((tuple(names), c)) & 0xffffff), keep=True, header=header)
     if res["status"] != "ok":
         return False
     if what == "tables":
         return bool(tables_case(run)[0])
     ag = agreement_case(b, run, c[0])
     if what == "agreement":
-        return ag["status"] in ("mismatch", "symbol")
+        return ag["status"] in ("mismatch", "symbol") or (header is not None and ag["status"] == "nocompile")
     return ffi_case(b, run, names)["status"] != "ok"
 
 
@@ -729,7 +811,7 @@ def replay(ck, b):
     d = rp["detail"]
     root = ck.scratch()
     c = tuple(d["cfg"])
-    res, run = closure_case(b, root, d["atoms"], c, "replay", keep=True)
+    res, run = closure_case(b, root, d["atoms"], c, "replay", keep=True, header=d.get("header"))
     print("case   :", rp["key"])
     print("command:", res.get("cmd"))
     print("closure:", res["status"], res["problems"][:5])
